@@ -66,14 +66,18 @@ prop(
     "C20",
     level="proof",
     design_ref="DESIGN.md section 3, C20",
-    groups=[(["./pipeline"], r"^\(\*Pipeline\)\.(checkInputBytes|In)$"), (["./pipeline/antispam"], r"^\(\*Antispammer\)\.(IsSpam|Maintenance)$"), (["./cfg/matchrule"], r"^\(\*Rule\)\.(Match|match)$")],
-    canaries=[("./pipeline", "replay/C20/zz_raw_last_byte_test.go", "TestVerifRawKeepsRecordBytes")],
+    groups=[(["./pipeline"], r"^\(\*Pipeline\)\.(checkInputBytes|In)$"), (["./pipeline/antispam"], r"^\(\*Antispammer\)\.(IsSpam|Maintenance)$"), (["./cfg/matchrule"], r"^\(\*Rule\)\.(Match|match|Prepare)$"),
+            (["./fd"], r"^(scaleAntispamThreshold|extractAntispamRules|extractPipelineParams)$")],
+    canaries=[("./pipeline", "replay/C20/zz_raw_last_byte_test.go", "TestVerifRawKeepsRecordBytes"),
+              ("./fd", "replay/C20/zz_subsecond_interval_test.go", "TestVerifAntispamSubSecondInterval"),
+              ("./cfg/matchrule", "replay/C20/zz_rule_without_values_test.go", "TestVerifRuleWithoutValuesDoesNotPanic")],
     claim=(
         "Sequential admission control, for all records and settings: checkInputBytes has an exact postcondition (refuses iff empty, lone newline, or oversize with cutting disabled; within the limit the record is returned unchanged; "
         "a cut record is its first max_event_size bytes plus its newline, written inside the caller's record - frame checked); Pipeline.In returns 0 only on one of the listed reasons "
         "(size/empty, undecodable, already committed, antispam, PassEvent) and consults the antispam only for complete records with threshold >= 0; IsSpam never drops when disabled or when a legacy exception matches, "
         "matches every exception against the event bytes or the source name as configured (oracle on Match), and increments a source's counter at most once per call; "
-        "Maintenance maps each counter x to min(max(x-T,0),U*T) for the source's own stored threshold T."
+        "Maintenance maps each counter x to min(max(x-T,0),U*T) for the source's own stored threshold T; the configured per-second thresholds (pipeline-wide and per rule) reach the antispammer converted to "
+        "per-interval ones with 0 and -1 kept and a positive value never becoming 0 (scaleAntispamThreshold and its two call sites); every match rule is usable after Prepare."
     ),
     undecided=[
         "unsynchronised load/swap/inc on one source's counter under concurrent readers (schedules)",
@@ -347,7 +351,7 @@ prop(
     "C17",
     level="other",
     design_ref="DESIGN.md section 3, C17",
-    groups=[(["./plugin/action/mask"], r"^\(\*Mask\)\.(maskValue|maskSection)$"), (["./cfg"], r"^VerifyGroupNumbers$"), (["./cfg/matchrule"], r"^\(\*Rule\)\.(Match|match)$"),
+    groups=[(["./plugin/action/mask"], r"^\(\*Mask\)\.(maskValue|maskSection)$"), (["./cfg"], r"^VerifyGroupNumbers$"), (["./cfg/matchrule"], r"^\(\*Rule\)\.(Match|match|Prepare)$"),
             (["./plugin/action/mask", "./pipeline"], r"^(addFieldsToTree|\(\*Plugin\)\.(traverseTree|processMask))$")],
     canaries=[("./plugin/action/mask", "replay/C17/zz_replay_c17_test.go", "TestVerifReplayC17Tail"), ("./plugin/action/mask", "replay/C17/zz_cut_to_empty_test.go", "TestVerifCutToEmptyStaysCut")],
     known_canaries=[("./plugin/action/mask", "replay/C17/zz_replay_c17_test.go", "TestVerifReplayC17Order")],
@@ -376,7 +380,7 @@ prop(
             (["./plugin/action/convert_utf8_bytes"], r"^\(\*Plugin\)\.convert$"),
             (["./plugin/action/hash/normalize"], r"^(hasPattern|\(\*tokenizer\)\.(nextToken|processOpenBracket|processCloseBracket|processQuotes)|\(\*tokenNormalizer\)\.normalizeByTokenizer)$"),
             (["./cfg/substitution"], r"^\(\*(CutFilter|TrimToFilter|RegexFilter)\)\.Apply$"),
-            (["./cfg/matchrule"], r"^\(\*Rule\)\.(Match|match)$"),
+            (["./cfg/matchrule"], r"^\(\*Rule\)\.(Match|match|Prepare)$"),
             (["./cfg"], r"^VerifyGroupNumbers$"),
             (["./pipeline"], r"^\(\*processor\)\.(processEvent|doActions)$"),
             (["./metric"], r"truncateLabels$"),
@@ -413,7 +417,8 @@ prop(
     design_ref="DESIGN.md section 3, C07",
     groups=[(["./plugin/input/file"], r"^(\(\*offsetDB\)\.(save|parseLine|parseOptionalLine|parseStreams)|safeSubstring)$"),
             (["./offset"], r"^\(\*Offset\)\.(Save|saveToTmp)$")],
-    canaries=[("./plugin/input/file", "replay/C07/zz_replay_c07_test.go", "TestVerifReplayC07")],
+    canaries=[("./plugin/input/file", "replay/C07/zz_replay_c07_test.go", "TestVerifReplayC07"),
+              ("./plugin/input/file", "replay/C07/zz_empty_stream_test.go", "TestVerifOffsetsEmptyStreamNameRoundTrip")],
     script_canaries=["replay/C07/strace_save.sh"],
     claim=(
         "Save protocol proved for every failure pattern of open / write / sync / rename (each may fail on any call): both savers (file input's offsetDB.save and the generic offset.Save of journalctl/dmesg) rename the temporary file over the current one "
